@@ -4,7 +4,7 @@ import re
 import guards
 
 from mirlib import AnchorMissing, op_place, path_matches, is_bare, place_projs
-from helpers import (branches_on_call, closure_of_arg, comes_from_call, enum_switches, edge_region, eq_branches, must_pass, origin_calls, ungated_reach, chain,
+from helpers import (base_local, branches_on_call, closure_of_arg, comes_from_call, enum_switches, edge_region, eq_branches, must_pass, origin_calls, ungated_reach, chain,
                      aggregates, arm, field_accesses, loop_of, vexpr, bool_branches)
 
 EXPLANATION = (
@@ -217,6 +217,38 @@ def r_wrapper_coverage(r, prog):
     r.floor(9, 'Types variants')
 
 
+def _direct_field_scans(prog, fn):
+    """the field scan written out where it is needed instead of through check_fields_for_cycles: a loop over `<A as Container<Field>>::contents(x)`
+    whose every pass hands data_type(field) and the field itself to check_field_type_for_cycles. Returns [(A, the contents() call)]."""
+    out = []
+    for c in fn.calls():
+        m = re.match(r'^<([\w:#]+) as slicec::grammar::traits::Container<slicec::grammar::elements::field::Field>>::contents$', c.resolved or '')
+        if not m or fn.blocks[c.bb].get('cleanup'):
+            continue
+        src = vexpr(fn, {'cp': c.dest}) if c.dest is not None else None
+        for k in fn.calls_to('check_field_type_for_cycles'):
+            lp = loop_of(fn, k.bb)
+            if lp is None or fn.blocks[k.bb].get('cleanup'):
+                continue
+            head, body = lp
+            elem = vexpr(fn, k.args[2])
+            dts = [d for d in fn.calls() if d.name() == 'data_type' and d.bb in body and base_local(fn, d.args[0]) == base_local(fn, k.args[2])]
+            if not re.match(r'^next\(into_iter\(contents\(.*\)\)\) as Some\.0$', elem) or not dts or not vexpr(fn, k.args[1]).startswith('data_type('):
+                continue
+            # the loop runs over what this very contents() call returned
+            its = [i for i in fn.calls() if i.name() == 'into_iter' and fn.dominates(i.bb, head) and i.bb not in body and vexpr(fn, i.args[0]).startswith('contents(')
+                   and base_local(fn, i.args[0]) == c.dest.get('l')]
+            if not its or not fn.dominates(c.bb, its[0].bb):
+                continue
+            ok = False
+            for e in enum_switches(fn):
+                if e['bb'] in body and 1 in e['arms'] and loop_of(fn, e['bb'])[0] == head:
+                    ok = must_pass(fn, e['arms'][1], [head], [k.bb])
+            if ok:
+                out.append((m.group(1), c))
+    return out
+
+
 def r_container_coverage(r, prog):
     # every impl of Container<Field> is scanned by check_fields_for_cycles
     conts = set()
@@ -234,6 +266,10 @@ def r_container_coverage(r, prog):
                 a = _payload_adt(rv['from'])
                 if a:
                     given.add((a, fn.path))
+    for fn in prog.fns.values():
+        if fn.path.startswith(CD) or 'cycle_detection::CycleCandidate' in fn.path:
+            for a, c in _direct_field_scans(prog, fn):
+                given.add((a, fn.path))
     for a in sorted(conts):
         hit = [g for g in given if g[0] == a]
         if hit:
@@ -241,9 +277,13 @@ def r_container_coverage(r, prog):
         else:
             r.finding('field-container-not-scanned:%s' % a, '-', 'fields held by %s are never handed to check_fields_for_cycles (the #689 regression class)' % a)
     # check_fields_for_cycles checks the type of every field
-    f = prog.fn(cff)
-    inner = f.calls_to('check_field_type_for_cycles')
-    if not inner:
+    f = prog.fns.get(cff)
+    inner = f.calls_to('check_field_type_for_cycles') if f is not None else []
+    if f is None:
+        if not given:
+            raise AnchorMissing('check_fields_for_cycles, or the field scan written out in the candidates')
+        r.ok('no shared field scan: the candidates walk their fields themselves (each loop checked where it stands)')
+    elif not inner:
         r.finding('field-scan-does-nothing', f.span, 'check_fields_for_cycles never calls check_field_type_for_cycles')
     else:
         lp = loop_of(f, inner[0].bb)
@@ -263,7 +303,7 @@ def r_container_coverage(r, prog):
             r.finding('field-scan-skips-fields', f.span, 'check_fields_for_cycles does not check the data type of every field on every loop path')
     # Enum's impl visits every enumerator
     for m in prog.impl_methods(CD + 'CycleCandidate', 'check_for_cycles'):
-        cs = m.calls_to('check_fields_for_cycles')
+        cs = m.calls_to('check_fields_for_cycles') + [c for a, c in _direct_field_scans(prog, m)]
         if not cs:
             r.finding('candidate-impl-scans-nothing:%s' % m.impl_adt, m.span, '%s::check_for_cycles never scans fields' % m.impl_adt)
             continue
@@ -278,7 +318,7 @@ def r_container_coverage(r, prog):
             head, body = lp
             good = False
             for e in enum_switches(m):
-                if e['bb'] in body and 1 in e['arms']:
+                if e['bb'] in body and 1 in e['arms'] and loop_of(m, e['bb'])[0] == head:
                     good = must_pass(m, e['arms'][1], [head], [c.bb for c in cs])
             src = [c for c in m.calls() if c.name() in ('enumerators', 'contents')]
             if good and src:
@@ -619,7 +659,7 @@ def r_search_state_and_identity(r, prog):
         if f is None:
             continue
         rets = [i for i, b in enumerate(f.blocks) if b['t']['k'] == 'return']
-        scans = [c for c in f.calls() if c.name() in ('check_fields_for_cycles',) and not f.blocks[c.bb].get('cleanup')]
+        scans = [c for c in f.calls() if c.name() in ('check_fields_for_cycles',) and not f.blocks[c.bb].get('cleanup')] + [c for a, c in _direct_field_scans(prog, f)]
         its = [c for c in f.calls() if c.name() == 'next' and not f.blocks[c.bb].get('cleanup')]
         through = [c.bb for c in its] if its else [c.bb for c in scans]
         adt = imp['self_adt'].rsplit('::', 1)[-1]
@@ -709,7 +749,27 @@ def r_dead_ends(r, prog):
         r.finding('dead-ends-survive-the-root', dc.span, 'the dead-end sets (%s) are not cleared before each root search: whether a type leads back depends on the root (memoising across roots hides cycles)' % sorted(sets))
     if n_ins < 2:
         raise AnchorMissing('dead-end insertions (found %d)' % n_ins)
-    r.floor(4)
+    # what a dead end is recorded and looked up under identifies the type: the module-scoped identifier of a named type (what the dependency
+    # stack holds, rule C05.7), the address of the definition of an anonymous one. Anything coarser (the unscoped name, the type string, which
+    # prints named types without their module) lets one type's dead end hide another type's way back.
+    keys = []
+    for fn_name in ('push_to_stack_and_check', 'check_field_type_for_cycles'):
+        f = prog.fn(CDT + fn_name)
+        for c in f.calls():
+            if c.name() in ('insert', 'contains') and not f.blocks[c.bb].get('cleanup') and re.search(r'dead_ends$', vexpr(f, c.args[0])):
+                keys.append((fn_name, c, vexpr(f, c.args[0]).rsplit('.', 1)[-1], vexpr(f, c.args[1])))
+    NAMED = (r'^module_scoped_identifier\(arg2\)$', r'^unwrap\(pop\(arg1\.dependency_stack\)\)\.0$')
+    bad = [(fn_name, c, st, k) for fn_name, c, st, k in keys
+           if not ((st == 'dead_ends' and any(re.match(p_, k) for p_ in NAMED)) or (st == 'anonymous_dead_ends' and k == 'definition(arg2)'))]
+    if len(keys) < 4:
+        raise AnchorMissing('dead-end lookups and insertions (found %d)' % len(keys))
+    if bad:
+        for fn_name, c, st, k in bad:
+            r.finding('dead-end-identity:%s:%s' % (fn_name, st), c.span, '%s %s %s under %s: two different types can share that key, and the dead end recorded for one makes the search skip the other' % (
+                fn_name, 'records a type in' if c.name() == 'insert' else 'looks a type up in', st, k[:100]))
+    else:
+        r.ok('dead ends are recorded and looked up under the module-scoped identifier (named types) or the address of the definition (anonymous types)')
+    r.floor(5)
 
 
 def loop_body(f, c):
